@@ -386,6 +386,18 @@ class Interp:
                         return a > b
                     if isinstance(op, ast.GtE):
                         return a >= b
+        if (isinstance(l, Slice) or isinstance(r, Slice)) and isinstance(op, (ast.Eq, ast.NotEq)):
+            def as_str(v):
+                if isinstance(v, Slice):
+                    b = v.base
+                    return b.slice_t(b._clamp(v.lo), b._clamp(v.hi))
+                if isinstance(v, str):
+                    return SymStr.const(v)
+                if isinstance(v, SymStr):
+                    return v
+                raise Unsupported("compare slice with " + repr(v))
+            c = as_str(l).eq_t(as_str(r))
+            return c if isinstance(op, ast.Eq) else z3.Not(c)
         if isinstance(l, (Builder, str)) and isinstance(r, (Builder, str)) and isinstance(op, (ast.Eq, ast.NotEq)):
             ls = l if isinstance(l, Builder) else Builder(tuple((T, cv(c)) for c in l))
             rs = r if isinstance(r, Builder) else Builder(tuple((T, cv(c)) for c in r))
@@ -407,6 +419,11 @@ class Interp:
                 raise Unsupported("len")
             if f.id == "range":
                 return ("range", _int(self.ev(e.args[0])))
+            if f.id == "enumerate" and len(e.args) == 1:
+                it = self.ev(e.args[0])
+                if isinstance(it, SymStr):
+                    return ("enumerate", it)
+                raise Unsupported("enumerate of non-string")
             if f.id == "StringIO" and not e.args:
                 return Builder()
         if isinstance(f, ast.Attribute):
@@ -495,7 +512,12 @@ class Interp:
         if isinstance(s, ast.For):
             it = self.ev(s.iter)
             lp = {"brk": F, "cont": F}
-            if not isinstance(s.target, ast.Name):
+            enum = isinstance(it, tuple) and it and it[0] == "enumerate"
+            if enum:
+                if not (isinstance(s.target, ast.Tuple) and len(s.target.elts) == 2 and all(isinstance(x, ast.Name) for x in s.target.elts)):
+                    raise Unsupported("enumerate target")
+                it = it[1]
+            elif not isinstance(s.target, ast.Name):
                 raise Unsupported("for target")
             for k in range(self.unroll):
                 if isinstance(it, SymStr):
@@ -508,7 +530,11 @@ class Interp:
                     raise Unsupported("for iterable")
                 lp["cont"] = F
                 gi = z3.And(g, cond, z3.Not(lp["brk"]))
-                self.assign(s.target.id, val, gi)
+                if enum:
+                    self.assign(s.target.elts[0].id, iv(k), gi)
+                    self.assign(s.target.elts[1].id, val, gi)
+                else:
+                    self.assign(s.target.id, val, gi)
                 self.block(s.body, gi, lp)
             # unwinding assertion: the iterable has no more than `unroll` elements
             if isinstance(it, SymStr):
